@@ -134,12 +134,73 @@ def generate(ctx):
                             cseed=int(rng.integers(0, 2 ** 31)))
         yield 'solve', dict(cfg, eta=eta, state={'kind': 'random', 'seed': int(rng.integers(0, 2 ** 31))},
                             ncols=(6 if quick else 8), cseed=int(rng.integers(0, 2 ** 31)))
-    # input forms, state across calls, jit / vmap / batch axes, rejected options
+    # input forms, state across calls, jit / vmap / eval_shape / jvp / vjp / batch axes, rejected options
     for K, vary, eta in ([(4, 'tref', 1.0), (2, 'radius', -0.5)] if quick else
                          [(4, 'tref', 1.0), (2, 'radius', -0.5), (1, 'kappa', 37.0), (3, 'R', -0.01), (5, 'matmul', 0.5), (3, 'tref', 0.0)]):
         cfg = {'b': _dyadic_boundaries(rng, K).tolist(), 'tref': rng.integers(200, 300, size=K).astype(float).tolist(),
                'R': 3.5, 'kappa': 0.25, 'radius': 1.0}
-        yield 'robust', dict(cfg, eta=eta, vary=vary, seed=int(rng.integers(0, 2 ** 31)))
+        if vary == 'tref' and K > 2: cfg['tref'][1] = cfg['tref'][0]          # a plateau: exact zeros in down_weights (reverse mode)
+        yield 'robust', dict(cfg, eta=eta, vary=vary, seed=int(rng.integers(0, 2 ** 31)), skind=('full' if vary != 'tref' else 'random'))
+    # near-coincidences and extreme spacings of the level set / reference profile (values equal to within
+    # 1e-5..1e-12 but not equal; boundaries only isclose to 0 and 1; layers of thickness 2^-30 next to thick ones)
+    def near_sets():
+        K = 8; e = np.arange(K + 1) / K
+        jit_ = e + np.concatenate([[0], rng.integers(-1, 2, size=K - 1), [0]]) * 2.0 ** -22
+        yield 'nearly-equidistant (k/K + 2^-22 jitter)', jit_, None, True
+        f32 = np.concatenate([[0.0], np.cumsum(np.full(6, np.float32(1 / 6), dtype=np.float32), dtype=np.float32).astype(np.float64)])
+        yield 'nearly-equidistant (float32-accumulated)', f32, None, True
+        yield 'nearly-equidistant (round(k/K, 7))', np.round(np.arange(6) / 5, 7), None, False
+        d = _dyadic_boundaries(rng, 4)
+        yield 'boundaries only isclose to 0 and 1 (2^-27, 1 + 2^-24)', np.concatenate([[2.0 ** -27], d[1:-1], [1 + 2.0 ** -24]]), None, True
+        yield 'boundaries only isclose to 0 and 1 (0, 1 - 2^-19)', np.concatenate([[0.0], d[1:-1], [1 - 2.0 ** -19]]), None, True
+        yield 'thin layers (2^-30) next to thick ones', np.array([0, 2.0 ** -30, 0.5, 0.5 + 2.0 ** -30, 1.0]), None, True
+        yield 'thin bottom layer (2^-30)', np.array([0, 0.25, 1 - 2.0 ** -30, 1.0]), None, True
+        t = 250.0 + np.array([0, 1, -1, 2, 0]) * 2.0 ** -9
+        yield 'nearly constant reference temperature (2^-9 K)', _dyadic_boundaries(rng, 5), t, True
+        t = np.array([231.5, 231.5 + 2.0 ** -20, 260.25, 260.25 - 2.0 ** -20])
+        yield 'nearly equal neighbouring reference temperatures (2^-20 K)', _dyadic_boundaries(rng, 4), t, True
+    for name, b, t, exact_model in near_sets():
+        K = len(b) - 1
+        tref = (rng.integers(200 * 4, 300 * 4, size=K).astype(float) / 4) if t is None else t
+        cfg = {'b': np.asarray(b, dtype=np.float64).tolist(), 'tref': np.asarray(tref).tolist(), 'R': 287.0, 'kappa': 2.0 / 7, 'radius': 1.0}
+        ctx.count('levels:' + name)
+        yield 'weights', dict(cfg, dseed=int(rng.integers(0, 2 ** 31)))
+        for eta in ([1.0] if quick else [1.0, -0.01, 37.0]):
+            if exact_model: yield 'matrix', dict(cfg, eta=eta)
+            yield 'solve', dict(cfg, eta=eta, state={'kind': 'full', 'seed': int(rng.integers(0, 2 ** 31))}, ncols=(5 if quick else 8),
+                                cseed=int(rng.integers(0, 2 ** 31)), nomodel=not exact_model)
+    # step sizes and radii over many more decades (dyadic scalings keep the exact model cheap)
+    for K, eta, radius in ([(2, 2.0 ** -30, 1.0), (3, -2.0 ** 20, 1.0), (2, 1.0, 2.0 ** -10), (2, -1e6, 2.0 ** 10)] if quick else
+                           [(2, 2.0 ** -30, 1.0), (3, -2.0 ** 20, 1.0), (2, 1.0, 2.0 ** -10), (2, -1e6, 2.0 ** 10), (3, 1e-6, 1.0), (5, 2.0 ** 30, 1.0),
+                            (3, -2.0 ** -30, 2.0 ** 20), (5, 2.0 ** 10, 2.0 ** -20), (1, 2.0 ** 30, 1.0), (4, 1e6, 1.0)]):
+        cfg = {'b': _dyadic_boundaries(rng, K).tolist(), 'tref': (rng.integers(200 * 4, 300 * 4, size=K).astype(float) / 4).tolist(),
+               'R': 287.0, 'kappa': 0.25, 'radius': radius}
+        ctx.count('decades: eta=%g radius=%g' % (eta, radius))
+        yield 'matrix', dict(cfg, eta=eta)
+        yield 'solve', dict(cfg, eta=eta, state={'kind': 'full', 'seed': int(rng.integers(0, 2 ** 31))}, ncols=6, cseed=int(rng.integers(0, 2 ** 31)))
+    # non-dyadic constants, reference temperatures and full-mantissa states (float32 intermediates become visible)
+    for K in ([3] if quick else [2, 3, 5]):
+        cfg = {'b': _dyadic_boundaries(rng, K).tolist(), 'tref': (288.15 - 6.5 * np.arange(K) - rng.uniform(0, 1, size=K)).tolist(),
+               'R': 287.05, 'kappa': 0.2857, 'radius': 6.371}
+        ctx.count('non-dyadic constants and states')
+        yield 'weights', dict(cfg, dseed=int(rng.integers(0, 2 ** 31)))
+        for eta in ([0.3] if quick else [0.3, -1.7]):
+            yield 'matrix', dict(cfg, eta=eta)
+            yield 'solve', dict(cfg, eta=eta, state={'kind': 'full', 'seed': int(rng.integers(0, 2 ** 31))}, ncols=6, cseed=int(rng.integers(0, 2 ** 31)))
+            yield 'wrappers', dict(cfg, eta=eta, seed=int(rng.integers(0, 2 ** 31)), ncols=4, skind='full')
+    # sizes above every threshold of the cumulative-sum / matmul strategies, on skinny modal grids; the exact
+    # model is cubic in K, so these cases are decided by independent numpy references
+    for K in ([130, 260] if quick else [130, 260, 520, 1030]):
+        ctx.count(f'many levels K={K}')
+        yield 'big', {'K': K, 'bseed': int(rng.integers(0, 2 ** 31)), 'R': 287.0, 'kappa': 2.0 / 7, 'radius': 1.0,
+                      'eta': [0.5, -1.0][K % 20 == 0], 'grid': {'lw': 2, 'tw': 3, 'lon': 4, 'lat': 4}, 'seed': int(rng.integers(0, 2 ** 31))}
+    # more than 128 longitude wavenumbers / very tall node sets (modal layout only; one layer)
+    for g in ([{'lw': 130, 'tw': 131, 'lon': 4, 'lat': 4}] if quick else
+              [{'lw': 130, 'tw': 131, 'lon': 4, 'lat': 4}, {'lw': 130, 'tw': 131, 'lon': 4, 'lat': 4, 'impl': 'fast'},
+               {'lw': 2, 'tw': 3, 'lon': 8, 'lat': 1030}, {'lw': 260, 'tw': 261, 'lon': 4, 'lat': 4}]):
+        cfg = {'b': [0.0, 0.375, 1.0], 'tref': [251.25, 280.5], 'R': 287.0, 'kappa': 2.0 / 7, 'radius': 2.0, 'grid': g}
+        ctx.count('layout:' + json.dumps(g, sort_keys=True))
+        yield 'solve', dict(cfg, eta=-0.5, state={'kind': 'full', 'seed': int(rng.integers(0, 2 ** 31))}, ncols=6, cseed=int(rng.integers(0, 2 ** 31)))
     # the two vertical operators alone, on more layer counts
     for K in ([4, 8] if quick else [4, 6, 8, 12, 16]):
         b = _dyadic_boundaries(rng, K, 7).tolist()
@@ -234,6 +295,10 @@ def _state(a, p, spec):
         for mm in range(M):
             st[(mm + spec['offset']) % n, mm, :] = spec['amp']
         rng = np.random.default_rng(spec['offset'])
+    elif spec['kind'] == 'full':
+        # full 53-bit mantissas: a float32 intermediate anywhere is visible at the 2^-36 policy
+        rng = np.random.default_rng(spec['seed'])
+        st = rng.uniform(-2.0, 2.0, size=(n, M, L))
     else:
         rng = np.random.default_rng(spec['seed'])
         st = util.small_rationals(rng, (n, M, L))
@@ -286,7 +351,7 @@ def _inverses(p, eta):
 
 
 def _absmm(A, B):
-    return np.einsum('lij,ljk->lik', np.abs(A), np.abs(B))
+    return np.abs(A) @ np.abs(B)
 
 
 # ---------------------------------------------------------------------------
@@ -311,6 +376,7 @@ def r_weights(ctx, a):
     rng = np.random.default_rng(a['dseed'])
     x = util.small_rationals(rng, (K, 2, 2))
     x[:, 0, 0] = 0; x[int(rng.integers(0, K)), 0, 0] = 1.0        # a one-hot column
+    x[:, 1, 1] = rng.uniform(-2.0, 2.0, size=K)                     # a full-mantissa column
     sc_h = SLOP * float((hs / th.min()) * (np.abs(x) * th[:, None, None]).sum(axis=0).max()) + 1e-300
     outs = {}
     for sparse in (0, 1):
@@ -380,7 +446,7 @@ def r_solve(ctx, a):
     st = _mkstate(div, T, lnps, vort, q, p=pd)
     x = _stk(st)
     Mx, Minv, S1, A, S2, B = _inverses(pd, eta)
-    cols = _pick_cols(M_, L_, a['ncols'], a['cseed'])
+    cols = [] if a.get('nomodel') else _pick_cols(M_, L_, a['ncols'], a['cseed'])
     Lm = (Mx - np.eye(n)) / eta if eta else _inverses(pd, 1.0)[0] - np.eye(n)
     absL = np.abs(Lm)                                                  # |L| entrywise, per l
     sc_L = SLOP * float(np.einsum('lij,jml->iml', absL, np.abs(x)).max()) + 1e-300
@@ -446,7 +512,7 @@ def r_wrappers(ctx, a):
     p = _primitive(a); pt = _primitive(a, None, True)
     K = p.coords.vertical.layers; eta = a['eta']; n = 2 * K + 1
     M_, L_ = p.coords.horizontal.modal_shape
-    div, T, lnps, vort, q = _state(a, p, {'kind': 'random', 'seed': a['seed']})
+    div, T, lnps, vort, q = _state(a, p, {'kind': a.get('skind', 'random'), 'seed': a['seed']})
     st = _mkstate(div, T, lnps, vort, q); x = _stk(st)
     cols = _pick_cols(M_, L_, a['ncols'], a['seed'])
     lam = _lam_ref(a, p.coords.horizontal)
@@ -506,7 +572,7 @@ def r_robust(ctx, a):
     m = J(); jnp = m['jnp']; pe = m['pe']
     p = _primitive(a); K = p.coords.vertical.layers; eta = a['eta']; n = 2 * K + 1
     M_, L_ = p.coords.horizontal.modal_shape
-    div, T, lnps, vort, q = _state(a, p, {'kind': 'random', 'seed': a['seed']})
+    div, T, lnps, vort, q = _state(a, p, {'kind': a.get('skind', 'random'), 'seed': a['seed']})
     st = _mkstate(div, T, lnps, vort, q); x = _stk(st)
     Mx, Minv, S1, A, S2, B = _inverses(p, eta)
     absL = np.abs((Mx - np.eye(n)) / eta) if eta else np.abs(_inverses(p, 1.0)[0] - np.eye(n))
@@ -567,6 +633,45 @@ def r_robust(ctx, a):
         ctx.oracle_close(f'vmap(implicit_inverse)(x - eta*implicit_terms(x)) = x  [method={me}]',
                          stkb(jax.vmap(lambda s_, me=me: p.implicit_inverse(s_, eta, me))(yb)), xb, scale=4 * sc)
     ctx.oracle_close('implicit_inverse with a leading batch axis (split): resolvent', stkb(p.implicit_inverse(yb, eta, 'split')), xb, scale=4 * sc)
+    # (e2) eval_shape, numpy-array states, jit of the cumulative-sum strategy and of the helper functions,
+    #      jvp = the (linear) operator applied to the tangent, vjp finite and adjoint-consistent
+    ps_ = _primitive(a, 'sparse'); v_ = p.coords.vertical
+    sh = jax.eval_shape(p.implicit_terms, st); shi = jax.eval_shape(lambda s_: p.implicit_inverse(s_, eta, 'blockwise'), st)
+    ctx.exact('eval_shape(implicit_terms / implicit_inverse): shapes and dtypes',
+              [[list(l.shape), str(l.dtype)] for l in jax.tree_util.tree_leaves(sh)] + [[list(l.shape), str(l.dtype)] for l in jax.tree_util.tree_leaves(shi)],
+              [[list(l.shape), 'float64'] for l in jax.tree_util.tree_leaves(st)] * 2)
+    stn = pe.State(np.asarray(vort), np.asarray(div), np.asarray(T), np.asarray(lnps), {'q': np.asarray(q)})
+    for nm, pp in (('dense', p), ('sparse', ps_)):
+        ctx.oracle_close(f'numpy-array state: implicit_terms ({nm})', _stk(pp.implicit_terms(stn)), L0, scale=sc_L)
+        ctx.oracle_close(f'jit(implicit_terms) = implicit_terms ({nm})', _stk(jax.jit(pp.implicit_terms)(st)), L0, scale=sc_L)
+        ctx.oracle_close(f'vmap(implicit_terms) = slice-wise ({nm})', stkb(jax.vmap(pp.implicit_terms)(stb)), Lb, scale=sc_L)
+    for me in METH:
+        ctx.oracle_close(f'numpy-array state: implicit_inverse  [method={me}]', _stk(p.implicit_inverse(pe.State(
+            np.asarray(y.vorticity), np.asarray(y.divergence), np.asarray(y.temperature_variation), np.asarray(y.log_surface_pressure),
+            {'q': np.asarray(q)}), eta, me)), inv0[me], scale=sc)
+    for spm in ('dense', 'sparse'):
+        fT = lambda d_, spm=spm: pe.get_temperature_implicit(d_, v_, p.reference_temperature, a['kappa'], method=spm)
+        fG = lambda t_, spm=spm: pe.get_geopotential_diff(t_, v_, a['R'], method=spm)
+        ctx.oracle_close(f'jit(get_temperature_implicit {spm})', np.asarray(jax.jit(fT)(st.divergence)), L0[K:2 * K], scale=sc_L)
+        ctx.oracle_close(f'jit / vmap(get_geopotential_diff {spm})',
+                         np.stack([np.asarray(jax.jit(fG)(st.temperature_variation)), np.asarray(jax.vmap(fG)(stb.temperature_variation))[0]]),
+                         np.stack([np.asarray(fG(st.temperature_variation))] * 2), scale=sc_L)
+    tan = _mkstate(*parts[min(1, Bn - 1)]); cot = _mkstate(*parts[-1])
+    zero = jax.tree_util.tree_map(jnp.zeros_like, st)
+    dot = lambda u_, w_: float(sum(jnp.vdot(a_, b_) for a_, b_ in zip(jax.tree_util.tree_leaves(u_), jax.tree_util.tree_leaves(w_))))
+    ops = [('implicit_terms dense', p.implicit_terms, sc_L), ('implicit_terms sparse', ps_.implicit_terms, sc_L)] + \
+          [(f'implicit_inverse {me}', (lambda s_, me=me: p.implicit_inverse(s_, eta, me)), 4 * sc) for me in METH]
+    for nm, f, scl in ops:
+        for at_name, at in (('a generic state', st), ('the state at rest', zero)):
+            out, jv = jax.jvp(f, (at,), (tan,))
+            ctx.oracle_close(f'jvp({nm}) at {at_name} = the operator applied to the tangent', _stk(jv), _stk(f(tan)), scale=scl)
+            _, pull = jax.vjp(f, at)
+            (ct,) = pull(cot)
+            fin = all(bool(np.isfinite(np.asarray(l)).all()) for l in jax.tree_util.tree_leaves(ct))
+            lhs, rhs = dot(cot, f(tan)), dot(ct, tan)
+            ctx.oracle(f'vjp({nm}) at {at_name} is finite and adjoint-consistent',
+                       fin and abs(lhs - rhs) <= 2.0 ** -36 * n * M_ * L_ * scl * float(max(np.abs(_stk(cot)).max(), 1.0)) * 8,
+                       {'finite': fin, 'lhs': lhs, 'rhs': rhs})
     # (f) forms of the step size
     forms = [('np.float64', np.float64(eta)), ('0-d array', np.array(eta))]
     if float(eta) == int(eta): forms.append(('python int', int(eta)))
@@ -592,8 +697,9 @@ def r_robust(ctx, a):
                              L0[K:2 * K], scale=sc_L)
     st32 = jax.tree_util.tree_map(lambda v: v.astype(jnp.float32), st)
     sti = jax.tree_util.tree_map(lambda v: jnp.round(v * 8).astype(jnp.int64), st)
-    ctx.oracle_close('float32 state (exactly representable values): implicit_terms', _stk(p.implicit_terms(st32)), L0, scale=sc_L)
-    ctx.oracle_close('integer-typed state: implicit_terms', _stk(p.implicit_terms(sti)), 8 * L0, scale=8 * sc_L)
+    up = lambda s_: jax.tree_util.tree_map(lambda v: v.astype(jnp.float64), s_)
+    ctx.oracle_close('float32 state = the same values as float64: implicit_terms', _stk(p.implicit_terms(st32)), _stk(p.implicit_terms(up(st32))), scale=sc_L)
+    ctx.oracle_close('integer-typed state = the same values as float64: implicit_terms', _stk(p.implicit_terms(sti)), _stk(p.implicit_terms(up(sti))), scale=8 * sc_L)
     y32 = jax.tree_util.tree_map(lambda v: v.astype(jnp.float32), jax.tree_util.tree_map(lambda v: jnp.round(v * 8) / 8, y))
     y64 = jax.tree_util.tree_map(lambda v: v.astype(jnp.float64), y32)
     for me in METH:
@@ -616,6 +722,65 @@ def r_robust(ctx, a):
                raises(lambda: _fresh(a, matmul='cumsum').implicit_terms(st), ValueError),
                raises(lambda: jax.jit(lambda s_, e_: p.implicit_inverse(s_, e_))(y, eta), TypeError)], [True] * 3)
     ctx.count('robust vary=' + vary)
+
+
+def _GH_ref(b, tref, kappa, R):
+    """G and H written down independently from the formulas in the docstrings (numpy, vectorised)."""
+    K = len(tref); th = np.diff(b); ls = np.log((b[1:] + b[:-1]) / 2)
+    al = np.concatenate([np.diff(ls) / 2, [-ls[-1]]])
+    r = np.arange(K)[:, None]; s_ = np.arange(K)[None, :]
+    P = (r - s_ >= 0).astype(float); Pm = (r - s_ - 1 >= 0).astype(float)
+    alm = np.concatenate([[0.0], al[:-1]])
+    first = kappa * tref[:, None] * (P * al[:, None] + Pm * alm[:, None]) / th[:, None]
+    k0 = np.concatenate([np.diff(tref) / (th[1:] + th[:-1]), [0.0]])
+    Kr = k0[:, None] * (P - np.cumsum(th)[:, None])
+    Krm = np.concatenate([np.zeros((1, K)), Kr[:-1]], axis=0)
+    H = (first - Kr - Krm) * th[None, :]
+    G = R * (np.diag(al) + np.triu(np.tile((al + alm)[None, :], (K, 1)), 1))
+    return G, H, th
+
+
+def r_big(ctx, a):
+    """Many levels on a skinny modal grid; decided by independent numpy references (the exact model is cubic in K)."""
+    m = J(); jnp = m['jnp']; pe = m['pe']
+    K = a['K']; rng = np.random.default_rng(a['bseed'])
+    b = _dyadic_boundaries(rng, K, 14)
+    tref = 288.0 - 70.0 * np.arange(K) / K + rng.integers(0, 16, size=K) / 8
+    cfg = dict(a, b=b.tolist(), tref=tref.tolist())
+    pd = _primitive(cfg, 'dense'); ps = _primitive(cfg, 'sparse'); eta = a['eta']; n = 2 * K + 1
+    M_, L_ = pd.coords.horizontal.modal_shape; lam = _lam_ref(cfg, pd.coords.horizontal)
+    G, H, th = _GH_ref(b, tref, a['kappa'], a['R'])
+    Himp = pe.get_temperature_implicit_weights(pd.coords.vertical, tref, a['kappa'])
+    Gimp = pe.get_geopotential_weights(pd.coords.vertical, a['R'])
+    ctx.oracle_close('many levels: get_temperature_implicit_weights = numpy reference of the documented formula', Himp, H,
+                     scale=float(np.abs(H).max()))
+    ctx.oracle_close('many levels: get_geopotential_weights = numpy reference of the documented formula', Gimp, G, scale=float(np.abs(G).max()))
+    div, T, lnps, vort, q = _state(cfg, pd, {'kind': 'full', 'seed': a['seed']})
+    st = _mkstate(div, T, lnps, vort, q); x = _stk(st)
+    refL = np.concatenate([-lam[None, None, :] * (np.einsum('jk,kml->jml', G, T) + a['R'] * tref[:, None, None] * lnps),
+                           -np.einsum('jk,kml->jml', H, div), -np.einsum('k,kml->ml', th, div)[None]], axis=0)
+    absL = np.concatenate([np.abs(lam).max() * (np.einsum('jk,kml->jml', np.abs(G), np.abs(T)) + abs(a['R']) * np.abs(tref[:, None, None] * lnps)),
+                           np.einsum('jk,kml->jml', np.abs(H), np.abs(div)), np.einsum('k,kml->ml', th, np.abs(div))[None]], axis=0)
+    sc_L = SLOP * float(absL.max()) + 1e-300
+    terms = {}
+    for nm, p in (('dense', pd), ('sparse', ps)):
+        terms[nm] = p.implicit_terms(st)
+        ctx.oracle_close(f'many levels: implicit_terms ({nm}) = numpy reference', _stk(terms[nm]), refL, scale=sc_L)
+    Mx, Minv, S1, A, S2, B = _inverses(pd, eta)
+    ctx.oracle_close('many levels: implicit matrix @ x = x - eta*implicit_terms(x)', np.einsum('lij,jml->iml', Mx, x), x - eta * refL,
+                     scale=float(np.abs(x).max() + abs(eta) * sc_L))
+    sc_res = SLOP * float(np.einsum('lij,jml->iml', _absmm(Minv, Mx), np.abs(x)).max()) + 1e-300
+    Dinv = np.zeros_like(Mx); Dinv[:, :K, :K] = A; Dinv[:, K:, K:] = B
+    sc_blk = SLOP * float(np.einsum('lij,jml->iml', _absmm(Dinv, np.abs(Mx)) @ np.abs(Mx), np.abs(x)).max()) + 1e-300
+    for nm in ('dense', 'sparse'):
+        y = st - eta * terms[nm]
+        for me in ('split', 'stacked', 'blockwise'):
+            ctx.oracle_close(f'many levels: implicit_inverse(x - eta*implicit_terms(x)) = x  [method={me}]',
+                             _stk(pd.implicit_inverse(y, eta, me)), x, scale=sc_blk if me == 'blockwise' else sc_res)
+    for name, X, Y in (('Minv*M = I (full matrix)', Minv, Mx), ('A*(I-GH) = I', A, S1), ('B*(I-HG) = I', B, S2)):
+        res = np.abs(X @ Y - np.eye(Y.shape[-1]))
+        bound = 2.0 ** -36 * _absmm(X, Y).max(axis=(1, 2), keepdims=True)
+        ctx.table_obligation('H_inv: ' + name, bool((res <= bound).all()), {'K': K, 'max_residual': float(res.max())})
 
 
 _sws = {}
@@ -728,4 +893,4 @@ def _guard(fn):
 
 
 RUNNERS = {k: _guard(f) for k, f in {'weights': r_weights, 'matrix': r_matrix, 'solve': r_solve, 'wrappers': r_wrappers,
-                                      'shallow': r_shallow, 'robust': r_robust}.items()}
+                                      'shallow': r_shallow, 'robust': r_robust, 'big': r_big}.items()}
